@@ -66,7 +66,8 @@ pub fn campaign(ctx: &mut Ctx, target: &str, jobs: usize, runs_per_job: u64, max
             ])
             .env("VERIF_DIR", &vd)
             .stdout(Stdio::null())
-            .stderr(Stdio::piped())
+            // a piped stderr would block the fuzzer as soon as the pipe buffer is full
+            .stderr(std::fs::File::create(format!("{work}/log{j}.txt")).map_or_else(|_| Stdio::null(), Stdio::from))
             .spawn();
         match child {
             Ok(c) => children.push((j, c)),
@@ -77,8 +78,9 @@ pub fn campaign(ctx: &mut Ctx, target: &str, jobs: usize, runs_per_job: u64, max
     let mut crashes = vec![];
     let mut summaries = vec![];
     for (j, c) in children {
-        let Ok(out) = c.wait_with_output() else { continue };
-        let err = String::from_utf8_lossy(&out.stderr);
+        let mut c = c;
+        let Ok(status) = c.wait() else { continue };
+        let err = std::fs::read_to_string(format!("{work}/log{j}.txt")).unwrap_or_default();
         let n = err
             .lines()
             .find_map(|l| l.strip_prefix("stat::number_of_executed_units:").map(str::trim).and_then(|v| v.parse::<u64>().ok()))
@@ -92,7 +94,7 @@ pub fn campaign(ctx: &mut Ctx, target: &str, jobs: usize, runs_per_job: u64, max
                 }
             }
         }
-        if !out.status.success() {
+        if !status.success() {
             summaries.push(format!("job {j}: {}", err.lines().find(|l| l.contains("FUZZ-VIOLATION") || l.contains("ERROR")).unwrap_or("stopped")));
         }
     }
